@@ -37,14 +37,18 @@ def fpp_case(draw):
     return {'gc': gc, 'dur': [draw(st.sampled_from(pool)) for _ in nodes],
             'delay': [draw(st.sampled_from(pool)) for _ in pairs],
             'I0': I0, 'R0': R0, 'tmin': tmin, 'tmax': tmax,
-            'api': draw(st.sampled_from(['two', 'two', 'joint-all', 'joint-filtered'])), 'np_values': draw(st.integers(0, 3)) == 0}
+            'api': draw(st.sampled_from(['two', 'two', 'joint-all', 'joint-filtered'])), 'np_values': draw(st.integers(0, 3)) == 0,
+            # time scales handed to the rules through trans_time_args / rec_time_args / trans_and_rec_time_args
+            'args': draw(st.sampled_from([[1, 1], [1, 1], [2.0, 1.0], [0.5, 1.0], [1.0, 2.0], [0.5, 2.0], [2.0, 0.5]]))}
 
 
-def tables(case):
+def tables(case, raw=False):
+    """raw: the numbers stored in the user's rules; otherwise what the rules return once given their extra arguments"""
     nodes, adj = oracles.adjacency(case['gc'])
     pairs = [(u, v) for u in nodes for v in adj[u]]
-    dur = {u: _v(d) for u, d in zip(nodes, case['dur'])}
-    delay = {p: _v(d) for p, d in zip(pairs, case['delay'])}
+    a_tr, a_rec = (1, 1) if raw else (case.get('args') or (1, 1))
+    dur = {u: _v(d) * a_rec for u, d in zip(nodes, case['dur'])}
+    delay = {p: _v(d) * a_tr for p, d in zip(pairs, case['delay'])}
     if case.get('np_values'):
         import numpy as _np      # user rules often return numpy scalars
         dur = {u: _np.float64(d) for u, d in dur.items()}
@@ -54,7 +58,8 @@ def tables(case):
 
 def run_sim(case, full, budget):
     import EoN
-    nodes, adj, dur, delay = tables(case)
+    nodes, adj, dur, delay = tables(case, raw=True)
+    a_tr, a_rec = case.get('args') or (1, 1)
     G = oracles.build_graph(case['gc'])
     I0 = [oracles.tolabel(u) for u in case['I0']]
     R0 = [oracles.tolabel(u) for u in case['R0']]
@@ -65,20 +70,20 @@ def run_sim(case, full, budget):
     if case['api'] == 'two':
         def trans(u, v, scale):
             budget.tick()
-            return delay[(u, v)] * scale if delay[(u, v)] != INF else INF
+            return delay[(u, v)] * scale
 
-        def rec(u):
+        def rec(u, scale):
             budget.tick()
-            return dur[u]
-        return EoN.fast_nonMarkov_SIR(G, trans_time_fxn=trans, rec_time_fxn=rec, trans_time_args=(1,), **kw)
+            return dur[u] * scale
+        return EoN.fast_nonMarkov_SIR(G, trans_time_fxn=trans, rec_time_fxn=rec, trans_time_args=(a_tr,), rec_time_args=(a_rec,), **kw)
 
-    def joint(u, sus):
+    def joint(u, sus, s_tr, s_rec):
         budget.tick()
-        d = {v: delay[(u, v)] for v in sus}
+        d = {v: delay[(u, v)] * s_tr for v in sus}
         if case['api'] == 'joint-filtered':
-            d = {v: x for v, x in d.items() if x <= dur[u]}
-        return d, dur[u]
-    return EoN.fast_nonMarkov_SIR(G, trans_and_rec_time_fxn=joint, **kw)
+            d = {v: x for v, x in d.items() if x <= dur[u] * s_rec}
+        return d, dur[u] * s_rec
+    return EoN.fast_nonMarkov_SIR(G, trans_and_rec_time_fxn=joint, trans_and_rec_time_args=(a_tr, a_rec), **kw)
 
 
 def prop_fpp(case, runner=None, table_fn=None, name='fast_nonMarkov_SIR'):
